@@ -51,6 +51,7 @@ type CombinationColexIterator struct {
 	k    int
 	j    int //Position to try to increase
 	data []int
+	done bool
 }
 
 //CombinationsColex returns a new CombinationColexIterator which iterates over all subsets of k distinct elements from 0, ..., n-1 in colexicographic order.
@@ -78,13 +79,14 @@ func (b *CombinationColexIterator) Next() bool {
 		return b.k == -1
 	}
 
-	if b.k > b.n {
-		//There are no subsets of size k.
+	if b.k > b.n || b.done {
+		//There are no subsets of size k or we have seen them all.
 		return false
 	}
 
 	if b.j >= b.k-1 {
 		if b.data[b.k-1] == b.n-1 {
+			b.done = true
 			return false
 		}
 		b.data[b.k-1]++
@@ -108,6 +110,7 @@ func (b *CombinationColexIterator) Next() bool {
 	}
 
 	if b.data[b.k-1] == b.n-1 {
+		b.done = true
 		return false
 	}
 	b.data[b.k-1]++
